@@ -1678,4 +1678,55 @@ Section Refine.
     - destruct F as [HP ->]. rewrite (zipl_nil _ _ L1 HP). reflexivity.
     - destruct F as (_ & -> & ->). rewrite app_nil_r. reflexivity.
   Qed.
+
+  Lemma remove_big' typ h f (J1 J2 : list A) C1 c C2 found :
+    rem_ih h ->
+    length C1 = length J1 -> length C2 = length J2 ->
+    Forall (binv h) (C1 ++ c :: C2) -> Forall (fun c0 => lo <= length (n_its c0) <= hi)%nat (C1 ++ c :: C2) ->
+    sorted (flatten (Node (J1 ++ J2) (C1 ++ c :: C2) (idx_of (map fsize (C1 ++ c :: C2))))) ->
+    fsel typ (zipl J1 C1) (zipr J2 C2) J2 found ->
+    (lo < length (n_its c))%nat ->
+    (2 * h + 2 <= f)%nat ->
+    exists n' out,
+      remove ltb (S f) (Node (J1 ++ J2) (C1 ++ c :: C2) (idx_of (map fsize (C1 ++ c :: C2)))) typ lo = Some (n', out) /\
+      binv (S h) n' /\
+      rem_spec typ (flatten (Node (J1 ++ J2) (C1 ++ c :: C2) (idx_of (map fsize (C1 ++ c :: C2))))) (flatten n') out /\
+      length (n_its n') = length (J1 ++ J2).
+  Proof.
+    intros IH L1 L2 F1 F2 Hs FS Big Hf.
+    assert (LL : length (C1 ++ c :: C2) = S (length (J1 ++ J2))) by (rewrite !app_length; cbn; lia).
+    pose proof (node_items_sorted _ _ _ LL Hs) as Hi.
+    apply (remove_big typ h f J1 J2 C1 c C2 found); auto.
+    - apply (fsel_sel typ J1 J2 C1 found (zipr J2 C2)); auto. intros _ a Ha. apply in_zipr; auto.
+    - intros ->. destruct typ as [x| |]; cbn [fsel pos_ok] in *; tauto.
+    - intros ->. destruct typ as [x| |]; cbn [fsel] in FS.
+      + destruct FS as [_ (y & J2' & -> & EQ)]. eauto.
+      + destruct FS as [_ FS]. discriminate.
+      + destruct FS as (_ & _ & FS). discriminate.
+  Qed.
+
+  (* the selection made by `typ` in an internal node *)
+  Lemma fsel_init typ h (its : list A) ch : length ch = S (length its) -> its <> [] ->
+    Forall (binv h) ch -> sorted (flatten (Node its ch (idx_of (map fsize ch)))) ->
+    exists J1 J2 C1 c C2 found, its = J1 ++ J2 /\ ch = C1 ++ c :: C2 /\ length C1 = length J1 /\ length C2 = length J2 /\
+      fsel typ (zipl J1 C1) (zipr J2 C2) J2 found.
+  Proof.
+    intros L NE F1 Hs. pose proof (node_items_sorted _ _ _ L Hs) as Hi.
+    assert (G : forall (J1 J2 : list A), its = J1 ++ J2 ->
+              exists C1 c C2, ch = C1 ++ c :: C2 /\ length C1 = length J1 /\ length C2 = length J2).
+    { intros J1 J2 ->. rewrite app_length in L. destruct (split_at ch (length J1)) as (C1 & R & -> & L1); [lia|].
+      destruct R as [|c C2]; [rewrite app_length in L; cbn in L; lia|]. exists C1, c, C2. rewrite app_length in L. cbn in L. repeat split; lia. }
+    destruct typ as [x| |].
+    - destruct (items_find_spec its x Hi) as [I1 I2 E H1 H2|I1 y I2 E H1 EQ H2].
+      + destruct (G I1 I2 E) as (C1 & c & C2 & -> & L1 & L2). subst its. exists I1, I2, C1, c, C2, false. repeat split; auto.
+        * rewrite (flatten_at_child I1 I2 C1 c C2 _ L1 L2) in Hs. eapply zipl_all_lt; eauto.
+        * rewrite (flatten_at_child I1 I2 C1 c C2 _ L1 L2) in Hs. rewrite app_assoc in Hs. eapply zipr_lt_all; eauto.
+      + destruct (G I1 (y :: I2) E) as (C1 & c & C2 & -> & L1 & L2). subst its. exists I1, (y :: I2), C1, c, C2, true. repeat split; auto.
+        * rewrite (flatten_at_child I1 (y :: I2) C1 c C2 _ L1 L2) in Hs. eapply zipl_all_lt; eauto.
+        * eauto.
+    - destruct (G [] its eq_refl) as (C1 & c & C2 & -> & L1 & L2). destruct C1; [|discriminate].
+      exists [], its, [], c, C2, false. repeat split; auto.
+    - destruct (G its [] (eq_sym (app_nil_r its))) as (C1 & c & C2 & -> & L1 & L2). destruct C2; [|discriminate].
+      exists its, [], C1, c, [], false. rewrite app_nil_r. repeat split; auto.
+  Qed.
 End Refine.
